@@ -450,6 +450,12 @@ static void define_on(const char* level, int idx, const char* t, const char* ide
   else if (t[0] == 'f') fv = atof(val);
   else iv = atoll(val);
   const char* id = strcmp(ident, "-") == 0 ? "" : ident;
+  if ((level[0] == 'c' && !compilers[idx]) || (level[0] == 'r' && !rulesets[idx]) || (level[0] == 's' && !scanners[idx]))
+  {
+    fprintf(out, "{\"e\":\"%cDefine\",\"h\":%d,\"ret\":-1,\"skipped\":\"no object\"}\n", toupper(level[0]), idx);
+    free(sv.p);
+    return;
+  }
   if (level[0] == 'c')
   {
     YR_COMPILER* c = compilers[idx];
@@ -719,7 +725,7 @@ int main(int argc, char** argv)
       if (r == ERROR_SUCCESS) fprintf(out, ",\"num_rules\":%u,\"num_strings\":%u", rulesets[rr]->num_rules, rulesets[rr]->num_strings);
       fputs("}\n", out);
     }
-    else if (!strcmp(op, "rinfo")) { NEED(1); log_rules_info(slot(tok[1], MAXSLOT)); }
+    else if (!strcmp(op, "rinfo")) { NEED(1); if (rulesets[slot(tok[1], MAXSLOT)]) log_rules_info(slot(tok[1], MAXSLOT)); }
     else if (!strcmp(op, "cdestroy"))
     {
       NEED(1);
@@ -775,6 +781,12 @@ int main(int argc, char** argv)
     {
       NEED(2);
       int s = slot(tok[1], MAXSLOT), rr = slot(tok[2], MAXSLOT);
+      if (rulesets[rr] == NULL)
+      {
+        scanners[s] = NULL;
+        fprintf(out, "{\"e\":\"ScannerCreate\",\"sid\":%d,\"rid\":%d,\"ret\":-1,\"skipped\":\"no rules\"}\n", s, rr);
+        continue;
+      }
       int r = yr_scanner_create(rulesets[rr], &scanners[s]);
       if (r != ERROR_SUCCESS) scanners[s] = NULL;
       fprintf(out, "{\"e\":\"ScannerCreate\",\"sid\":%d,\"rid\":%d,\"ret\":%d}\n", s, rr, r);
@@ -783,6 +795,7 @@ int main(int argc, char** argv)
     {
       NEED(2);
       int s = slot(tok[1], MAXSLOT);
+      if (!scanners[s]) continue;
       yr_scanner_set_flags(scanners[s], atoi(tok[2]));
       fprintf(out, "{\"e\":\"SetFlags\",\"sid\":%d,\"flags\":%d,\"eff\":%d}\n", s, atoi(tok[2]), scanners[s]->flags);
     }
@@ -790,6 +803,7 @@ int main(int argc, char** argv)
     {
       NEED(2);
       int s = slot(tok[1], MAXSLOT);
+      if (!scanners[s]) continue;
       yr_scanner_set_timeout(scanners[s], atoi(tok[2]));
       fprintf(out, "{\"e\":\"SetTimeout\",\"sid\":%d,\"sec\":%d}\n", s, atoi(tok[2]));
     }
@@ -797,6 +811,7 @@ int main(int argc, char** argv)
     {
       NEED(2);
       int s = slot(tok[1], MAXSLOT);
+      if (!scanners[s]) continue;
       scanners[s]->timeout = strtoull(tok[2], 0, 10);
       fprintf(out, "{\"e\":\"SetTimeout\",\"sid\":%d,\"ns\":%s}\n", s, tok[2]);
     }
@@ -818,7 +833,11 @@ int main(int argc, char** argv)
       int maxcalls = nt > 7 ? atoi(tok[7]) : 100;
       const char* tag = nt > 8 ? tok[8] : "-";
       YR_SCANNER* sc = scanners[s];
-      if (!sc) die("no scanner %d", s);
+      if (!sc)
+      {
+        fprintf(out, "{\"e\":\"ScanCall\",\"sid\":%d,\"did\":%d,\"skipped\":\"no scanner\"}\n{\"e\":\"ScanRet\",\"sid\":%d,\"ret\":-1,\"skipped\":\"no scanner\"}\n", s, d, s);
+        continue;
+      }
       CBCTX cb; memset(&cb, 0, sizeof cb);
       cb.sid = s; cb.log_matches = default_log_matches; cb.quiet_nomatch = default_quiet;
       parse_plan(tok[6], &cb);
